@@ -127,9 +127,15 @@ func (ex *Exec) trackAccess(st *State, fr *Frame, p Ptr, write bool) {
 		a = &AccessSummary{Loc: label, Threads: map[string]bool{}, Sites: map[string]bool{}, UnlockedAt: map[string]bool{}, Writers: map[string]bool{}}
 		ex.accessAll[label] = a
 	}
+	// an access made by one of the library's own goroutines is attributed to that role
+	role := "app"
+	if st.cur != 0 {
+		role = th.name
+	}
 	if write {
 		a.Writes++
 		a.Writers[method+" ("+site+")"] = true
+		a.Sites["W:"+role] = true
 	} else {
 		a.Reads++
 	}
@@ -139,6 +145,7 @@ func (ex *Exec) trackAccess(st *State, fr *Frame, p Ptr, write bool) {
 			a.UnlockedW++
 		}
 		a.UnlockedAt[method+" ("+site+")"] = true
+		a.Sites["U:"+role] = true
 	}
 	a.Threads[th.name] = true
 }
@@ -222,4 +229,22 @@ func (ex *Exec) trackNew(st *State, target Ptr, v Value) {
 	}
 	nl[id] = label
 	st.trackInfo = &trackInfo{labels: nl, root: ti.root, rootT: ti.rootT}
+}
+
+// confined: every write and every unlocked access of the location comes from the
+// same single internal goroutine (e.g. the main loop's private timer state): no race.
+func confined(a *AccessSummary) bool {
+	roles := map[string]bool{}
+	for k := range a.Sites {
+		if len(k) > 2 && (k[:2] == "W:" || k[:2] == "U:") {
+			roles[k[2:]] = true
+		}
+	}
+	if len(roles) != 1 {
+		return false
+	}
+	for r := range roles {
+		return r != "app"
+	}
+	return false
 }
